@@ -52,18 +52,20 @@ func with(r *annotations.HttpRule, adds ...*annotations.HttpRule) *annotations.H
 // RegisterConn / RegisterService is part of the histories; it is requested
 // only while the model has providers of at most one of the two services.
 // Every method with path variables has at least two such bindings, all of
-// them requested after every step.
+// them requested after every step. Every service also has bindings below the
+// two variable nodes of /sv ({a} and {a=sh/*}) that all services share, so
+// that dropping one provider exercises the pruning of nodes others still use.
 func files() []*vschema.File {
 	return []*vschema.File{
 		{Path: "vf/rsa.proto", Pkg: "vf.rs", Messages: aReq(1), Services: []vschema.Service{{Name: "A", Methods: []vschema.Method{
-			{Name: "Get", In: "vf.rs.AReq", Out: "vf.Rsp", Rule: with(get("/rs/a/{a}"), get("/rs/alt/{a}/{n}"), post("/rs/a", "*"), get("/rs/x/{a}"), get("/rs/ab/{a}/{b}"))},
+			{Name: "Get", In: "vf.rs.AReq", Out: "vf.Rsp", Rule: with(get("/rs/a/{a}"), get("/rs/alt/{a}/{n}"), post("/rs/a", "*"), get("/rs/x/{a}"), get("/rs/ab/{a}/{b}"), get("/sv/{a}/sa"), get("/sv/{a=sh/*}/pa"))},
 			{Name: "Put", In: "vf.rs.AReq", Out: "vf.Rsp", Rule: post("/rs/put", "*")},
 		}}}},
 		{Path: "vf/rsb.proto", Pkg: "vf.rs", Services: []vschema.Service{{Name: "B", Methods: []vschema.Method{
-			{Name: "Get", In: "vf.Req", Out: "vf.Rsp", Rule: with(get("/rs/b/{a}"), get("/rs/b2/{a}/{n}"), post("/rs/b", "*"))},
+			{Name: "Get", In: "vf.Req", Out: "vf.Rsp", Rule: with(get("/rs/b/{a}"), get("/rs/b2/{a}/{n}"), post("/rs/b", "*"), get("/sv/{a}/sb"), get("/sv/{a=sh/*}/pb"))},
 		}}}},
 		{Path: "vf/rsc.proto", Pkg: "vf.rs", Services: []vschema.Service{{Name: "C", Methods: []vschema.Method{
-			{Name: "Get", In: "vf.Req", Out: "vf.Rsp", Rule: with(get("/rs/c/{a}"), get("/rs/c2/{a}/{n}"), get("/rs/x/{a}"))},
+			{Name: "Get", In: "vf.Req", Out: "vf.Rsp", Rule: with(get("/rs/c/{a}"), get("/rs/c2/{a}/{n}"), get("/rs/x/{a}"), get("/sv/{a}/sc"), get("/sv/{a=sh/*}/pc"))},
 		}}}},
 	}
 }
@@ -87,7 +89,7 @@ func aReq(rev int) []*descriptorpb.DescriptorProto {
 // (version skew between replicas): Get announces one more binding.
 func filesV2() *vschema.File {
 	return &vschema.File{Path: "vf/rsa.proto", Pkg: "vf.rs", Messages: aReq(2), Services: []vschema.Service{{Name: "A", Methods: []vschema.Method{
-		{Name: "Get", In: "vf.rs.AReq", Out: "vf.Rsp", Rule: with(get("/rs/a/{a}"), get("/rs/alt/{a}/{n}"), post("/rs/a", "*"), get("/rs/x/{a}"), get("/rs/ab/{a}/{b}"), get("/rs/v2/{a}"))},
+		{Name: "Get", In: "vf.rs.AReq", Out: "vf.Rsp", Rule: with(get("/rs/a/{a}"), get("/rs/alt/{a}/{n}"), post("/rs/a", "*"), get("/rs/x/{a}"), get("/rs/ab/{a}/{b}"), get("/rs/v2/{a}"), get("/sv/{a}/sa"), get("/sv/{a=sh/*}/pa"))},
 		{Name: "Put", In: "vf.rs.AReq", Out: "vf.Rsp", Rule: post("/rs/put", "*")},
 		// a method only the newer revision has
 		{Name: "Extra", In: "vf.rs.AReq", Out: "vf.Rsp", Rule: get("/rs/extra/{a}")},
@@ -98,14 +100,14 @@ func filesV2() *vschema.File {
 // file, in three revisions. rev 2 adds a binding to D1.Get, rev 3 is invalid
 // (D2.Get binds an unknown field) and must be refused.
 func filesD(rev int) *vschema.File {
-	d1 := get("/rs/d1/{a}")
+	d1 := with(get("/rs/d1/{a}"), get("/sv/{a}/sd1"))
 	if rev == 2 {
 		// two bindings below sibling variable nodes of one trie node
-		d1 = with(get("/rs/d1/{a}"), get("/rs/d1v2/{a}"), get("/rs/{a=orgs/*/things/*}"), get("/rs/{b=projects/*/things/*}"))
+		d1 = with(get("/rs/d1/{a}"), get("/rs/d1v2/{a}"), get("/rs/{a=orgs/*/things/*}"), get("/rs/{b=projects/*/things/*}"), get("/sv/{a}/sd1"))
 	}
-	d2 := get("/rs/d2/{a}")
+	d2 := with(get("/rs/d2/{a}"), get("/sv/{a}/sd2"), get("/sv/{a=sh/*}/pd2"))
 	if rev == 3 {
-		d2 = get("/rs/d2/{no_such_field}")
+		d2 = with(get("/rs/d2/{no_such_field}"), get("/sv/{a}/sd2"), get("/sv/{a=sh/*}/pd2"))
 	}
 	return &vschema.File{Path: "vf/rsd.proto", Pkg: "vf.rs", Services: []vschema.Service{
 		{Name: "D1", Methods: []vschema.Method{{Name: "Get", In: "vf.Req", Out: "vf.Rsp", Rule: d1}}},
@@ -117,7 +119,7 @@ func filesD(rev int) *vschema.File {
 // take down (its process stops; the connection stays registered).
 func fileT() *vschema.File {
 	return &vschema.File{Path: "vf/rst.proto", Pkg: "vf.rs", Services: []vschema.Service{
-		{Name: "T", Methods: []vschema.Method{{Name: "Get", In: "vf.Req", Out: "vf.Rsp", Rule: get("/rs/t/{a}")}}},
+		{Name: "T", Methods: []vschema.Method{{Name: "Get", In: "vf.Req", Out: "vf.Rsp", Rule: with(get("/rs/t/{a}"), get("/sv/{a}/st"), get("/sv/{a=sh/*}/pt"))}}},
 	}}
 }
 
